@@ -269,6 +269,9 @@ func (s *Store) CARootSetCAS(idx, cidx uint64, rs []*structs.CARoot) (bool, erro
 	defer tx.Abort()
 
 	if err := caRootSetCASTxn(tx, idx, cidx, rs); err != nil {
+		if err == errCASCompareFailed {
+			return false, nil
+		}
 		return false, err
 	}
 
@@ -290,7 +293,7 @@ func caRootSetCASTxn(tx WriteTxn, idx, cidx uint64, rs []*structs.CARoot) error 
 
 	// Get the current max index
 	if midx := maxIndexTxn(tx, tableConnectCARoots); midx != cidx {
-		return nil
+		return errCASCompareFailed
 	}
 
 	// Go through and find any existing matching CAs so we can preserve and
